@@ -57,3 +57,9 @@ chk('C05', 'exploration',
     'Relational agreement is held on the documents produced; structural mutants are judged on the verdict relation only.',
     'Trusted: vlib/ref_ack.py, input_structure() recount in checks/c05.py, the acknowledgement code tables taken from the X12 997/999 definitions.',
     'relational runtime oracle over verdict, hooked error tree, log stream and parsed acknowledgement', 'DESIGN.md 5 C05')
+chk('C06', 'exploration',
+    'Every acknowledgement produced by hundreds of faulty, hostile (other delimiters, data containing ~ * : ^, 1-200 character echoes), many-error, missing-control-number and mutated inputs is '
+    'checked for completeness, tokenised independently and recounted, re-read by the real reader, checked for foreign segments / extra elements / AK2 count against the error tree, and fed '
+    'back to the real validator (no map-not-found; accepted when every copied value fits the 997/999 definitions). Held on the acknowledgements produced.',
+    'Trusted: vlib/ref_ack.py, vlib/ref_envelope.py and the conservative fits_definitions() table in checks/c06.py.',
+    'runtime monitoring of generated acknowledgements: independent recount + re-read + re-validation', 'DESIGN.md 5 C06')
